@@ -1,4 +1,5 @@
 import PdshVerif.Dshbak.HostlistBridge
+import PdshVerif.Dshbak.Rechunk
 
 /-! `header_expands`: the header text of the repaired dshbak, given to the hostlist parser model,
 yields exactly the group (as a multiset) -/
@@ -6,11 +7,9 @@ namespace PdshVerif.Dshbak
 open PdshVerif.Hostlist
 
 /-- C19's stated domain for the header theorem: distinct, non-empty names over characters that are
-neither separators nor brackets, at most 1000 bytes long, numeric parts below 2^64-1, at most
-10240 hosts under one header -/
+neither separators nor brackets, at most 1000 bytes long, numeric parts below 2^64-1 -/
 structure HeaderDom (g : List Str) : Prop where
   nodup : g.Nodup
-  size : g.length ≤ Spec.RANGES_LIMIT
   name : ∀ t ∈ g, t ≠ [] ∧ t.all Spec.textChar = true ∧ t.length ≤ 1000
   num : ∀ t ∈ g, valOf (splitNum (splitSuffix t).1).2 < ULONG_MAX
 
@@ -56,6 +55,18 @@ structure ElemOK (m : Nat) (e : Elem) : Prop where
   runs_ok : e.bracketed = true → ∀ r ∈ e.runs, RunFacts m r
   count : e.runs.length ≤ Spec.RANGES_LIMIT
 
+/-- a name of the domain -/
+def NameOK (t : Str) : Prop := t ≠ [] ∧ t.all Spec.textChar = true ∧ t.length ≤ 1000
+
+/-- what `compress` guarantees about an element, in a form that is inherited by the pieces the
+repair of F19-MANYRANGES cuts it into -/
+structure ElemFull (m : Nat) (e : Elem) : Prop where
+  runs_ne : e.runs ≠ []
+  pre_ok : e.pre.all Spec.textChar = true ∧ e.pre.length ≤ 1000
+  suf_ok : e.suf.all Spec.textChar = true ∧ e.suf.length ≤ 1000
+  single_ok : ∀ r ∈ e.runs, r.stop = none → NameOK (e.pre ++ r.start ++ e.suf)
+  runs_or : (e.runs.length ≤ 1 ∧ ∀ r ∈ e.runs, r = ⟨[], none⟩) ∨ ∀ r ∈ e.runs, RunFacts m r
+
 theorem all_of_append {p : Char → Bool} {a b c : Str} (h : (a ++ b ++ c).all p = true) :
     a.all p = true ∧ b.all p = true ∧ c.all p = true := by
   simp only [List.all_append, Bool.and_eq_true] at h
@@ -81,8 +92,8 @@ theorem nums_ne (r : Run) (h : ∀ x, r.stop = some x → valOf r.start ≤ valO
     omega
 
 /-- every element of the repaired `compress` is well formed -/
-theorem compress_elems_ok (m : Nat) (hm : 0 < m) (g : List Str) (hd : HeaderDom g) :
-    ∀ grp ∈ compressGroupsFixed (some m) g, ∀ e ∈ grp, ElemOK m e := by
+theorem compress_elems_full (m : Nat) (hm : 0 < m) (g : List Str) (hd : HeaderDom g) :
+    ∀ grp ∈ compressGroupsFixed (some m) g, ∀ e ∈ grp, ElemFull m e ∧ e.runs.length ≤ g.length := by
   intro grp hgrp e he
   simp only [compressGroupsFixed, List.mem_append, List.mem_map] at hgrp
   rcases hgrp with ⟨t, ht, rfl⟩ | hgrp
@@ -91,11 +102,12 @@ theorem compress_elems_ok (m : Nat) (hm : 0 < m) (g : List Str) (hd : HeaderDom 
     subst he
     have htg : t ∈ g := (sortn_perm g).subset (List.mem_filter.mp ht).1
     obtain ⟨h1, h2, h3⟩ := hd.name t htg
-    have hnb : (⟨t, [⟨[], none⟩], []⟩ : Elem).bracketed = false := by simp [Elem.bracketed]
-    have hrender : (⟨t, [⟨[], none⟩], []⟩ : Elem).render = t := by
-      simp [Elem.render, Elem.bracketed, Run.render, joinWith]
-    exact ⟨by simp, ⟨h2, h3⟩, by simp, fun _ => by rw [hrender]; exact ⟨h1, h2, h3⟩,
-      fun hb => by rw [hnb] at hb; simp at hb, by simp [Spec.RANGES_LIMIT]⟩
+    have hlen : 1 ≤ g.length := List.length_pos_iff.mpr (List.ne_nil_of_mem htg)
+    refine ⟨⟨by simp, ⟨h2, h3⟩, by simp, ?_, Or.inl ⟨by simp, by simp⟩⟩, by simpa using hlen⟩
+    intro r hr _
+    simp only [List.mem_singleton] at hr
+    subst hr
+    simpa [NameOK] using (⟨h1, h2, h3⟩ : t ≠ [] ∧ t.all Spec.textChar = true ∧ t.length ≤ 1000)
   · -- an element built by comp for a suffix group of the names that have a stem
     have hg'nd : (g.filter fun t => !noStem t).Nodup := hd.nodup.sublist List.filter_sublist
     simp only [compressGroups, List.mem_map] at hgrp
@@ -158,31 +170,12 @@ theorem compress_elems_ok (m : Nat) (hm : 0 < m) (g : List Str) (hd : HeaderDom 
     obtain ⟨_, htc, htl⟩ := hd.name _ hmem0
     obtain ⟨hpc, _, hsc⟩ := all_of_append htc
     simp only [List.length_append] at htl
-    refine ⟨hne, ⟨hpc, by show pr.1.length ≤ 1000; omega⟩, ⟨hsc, by show sg.1.length ≤ 1000; omega⟩, ?_,
-      fun _ => hfacts, ?_⟩
-    · -- not bracketed: a single element without high bound, the text is the name itself
-      intro hb
-      obtain ⟨p, runs⟩ := pr
-      simp only at hne hruns hbound hfacts hb ⊢
-      cases runs with
-      | nil => exact absurd rfl hne
-      | cons r rest =>
-        simp only [Elem.bracketed, List.length_cons, Bool.or_eq_false_iff, decide_eq_false_iff_not,
-          Option.isSome_eq_false_iff, Option.isNone_iff_eq_none] at hb
-        have hrest : rest = [] := by
-          cases rest with
-          | nil => rfl
-          | cons _ _ => simp at hb
-        subst hrest
-        have okr := hruns r (by simp)
-        obtain ⟨hm1, _, _⟩ := hbound r.start okr.startMem okr.startSplit
-        have hrender : (⟨p, [r], sg.1⟩ : Elem).render = p ++ r.start ++ sg.1 := by
-          obtain ⟨s, stop⟩ := r
-          simp only at hb
-          obtain ⟨_, rfl⟩ := hb
-          simp [Elem.render, Elem.bracketed, Run.render, joinWith]
-        rw [hrender]
-        exact hd.name _ hm1
+    refine ⟨⟨hne, ⟨hpc, by show pr.1.length ≤ 1000; omega⟩, ⟨hsc, by show sg.1.length ≤ 1000; omega⟩, ?_,
+      Or.inr hfacts⟩, ?_⟩
+    · intro r hr _
+      have okr := hruns r hr
+      obtain ⟨hm1, _, _⟩ := hbound r.start okr.startMem okr.startSplit
+      exact hd.name _ hm1
     · -- at most as many elements as names
       have h1 := length_le_flatMap_nums pr.2 fun r hr =>
         nums_ne r fun x hx => ((hruns r hr).stop x hx).2.1
@@ -194,9 +187,73 @@ theorem compress_elems_ok (m : Nat) (hm : 0 < m) (g : List Str) (hd : HeaderDom 
       have h4 := h3.length_le
       rw [List.length_map, h2.length_eq] at h4
       have h5 : (g.filter fun t => !noStem t).length ≤ g.length := List.length_filter_le _ _
-      have := hd.size
-      show pr.2.length ≤ Spec.RANGES_LIMIT
+      show pr.2.length ≤ g.length
       omega
+
+/-- an element that is not bracketed has one range element without high bound, and its text is
+prefix, number, suffix -/
+theorem unbracketed (e : Elem) (hne : e.runs ≠ []) (hb : e.bracketed = false) :
+    ∃ r, e.runs = [r] ∧ r.stop = none ∧ e.render = e.pre ++ r.start ++ e.suf := by
+  obtain ⟨pre, runs, suf⟩ := e
+  simp only at hne
+  cases runs with
+  | nil => exact absurd rfl hne
+  | cons r rest =>
+    simp only [Elem.bracketed, List.length_cons, Bool.or_eq_false_iff, decide_eq_false_iff_not,
+      Option.isSome_eq_false_iff, Option.isNone_iff_eq_none] at hb
+    have hrest : rest = [] := by
+      cases rest with
+      | nil => rfl
+      | cons _ _ => simp at hb
+    subst hrest
+    obtain ⟨s, stop⟩ := r
+    simp only at hb
+    obtain ⟨_, rfl⟩ := hb
+    exact ⟨⟨s, none⟩, rfl, rfl, by simp [Elem.render, Elem.bracketed, Run.render, joinWith]⟩
+
+theorem full_to_ok (m : Nat) (e : Elem) (h : ElemFull m e) (hcount : e.runs.length ≤ Spec.RANGES_LIMIT) :
+    ElemOK m e := by
+  refine ⟨h.runs_ne, h.pre_ok, h.suf_ok, fun hb => ?_, fun hb => ?_, hcount⟩
+  · obtain ⟨r, hr, hstop, hrender⟩ := unbracketed e h.runs_ne hb
+    rw [hrender]
+    exact h.single_ok r (by rw [hr]; simp) hstop
+  · rcases h.runs_or with ⟨hl, hall⟩ | hf
+    · exfalso
+      obtain ⟨pre, runs, suf⟩ := e
+      simp only at hl hall hb
+      cases runs with
+      | nil => simp [Elem.bracketed] at hb
+      | cons r rest =>
+        have hrest : rest = [] := by
+          cases rest with
+          | nil => rfl
+          | cons _ _ => simp only [List.length_cons] at hl; omega
+        subst hrest
+        have := hall r (by simp)
+        subst this
+        simp [Elem.bracketed] at hb
+    · exact hf
+
+/-- the pieces of an element inherit everything -/
+theorem full_piece (m : Nat) (mr : Option Nat) (e e' : Elem) (h : ElemFull m e)
+    (hp : e' ∈ splitElem mr e) : ElemFull m e' ∧ e'.runs.length ≤ e.runs.length := by
+  obtain ⟨h1, h2, h3, h4, _⟩ := splitElem_mem hp h.runs_ne
+  have hlen : e'.runs.length ≤ e.runs.length := by
+    cases mr with
+    | none => simp only [splitElem, List.mem_singleton] at hp; subst hp; exact Nat.le_refl _
+    | some k =>
+      simp only [splitElem, List.mem_map] at hp
+      obtain ⟨c, hc, rfl⟩ := hp
+      have := (List.sublist_flatten_of_mem hc).length_le
+      rw [piecesOf_flatten] at this
+      simpa using this
+  refine ⟨⟨h3, by rw [h1]; exact h.pre_ok, by rw [h2]; exact h.suf_ok, ?_, ?_⟩, hlen⟩
+  · intro r hr hs
+    rw [h1, h2]
+    exact h.single_ok r (h4 r hr) hs
+  · rcases h.runs_or with ⟨hl, hall⟩ | hf
+    · exact Or.inl ⟨Nat.le_trans hlen hl, fun r hr => hall r (h4 r hr)⟩
+    · exact Or.inr fun r hr => hf r (h4 r hr)
 
 /-! ### the words are well formed and inside the parser theorem's domain -/
 
@@ -285,15 +342,27 @@ theorem word_dom (cfg : Cfg) (m : Nat) (e : Elem) (h : ElemOK m e) : wordDom cfg
 (as found, probed, repaired), every range limit `m ≤ 16384` of the repaired comp, and every order
 `gs` of the suffix groups (Perl hash order): the parser `hostlist_create` applied to the header
 TEXT dshbak prints succeeds, and the list it builds denotes exactly the hosts of the group (as a
-multiset). -/
+multiset).  `hsize`: the group has at most 10240 hosts, or F19-MANYRANGES is repaired (at most
+`k ≤ 10240` range elements per bracket) — then there is no bound on the size of the group. -/
 theorem create_header (cfg : Cfg) (m : Nat) (hm : 0 < m) (hm16 : m ≤ Spec.RANGE_LIMIT)
-    (g : List Str) (hd : HeaderDom g) (gs : List (List Elem))
-    (hgs : gs.Perm (compressGroupsFixed (some m) g)) :
+    (mr : Option Nat) (g : List Str) (hd : HeaderDom g)
+    (hsize : g.length ≤ Spec.RANGES_LIMIT ∨ ∃ k, mr = some k ∧ 0 < k ∧ k ≤ Spec.RANGES_LIMIT)
+    (gs : List (List Elem)) (hgs : gs.Perm (compressV (some m) mr true g)) :
     ∃ h, create cfg (renderHeader gs) = .ok h ∧ h.Good ∧ h.hosts.Perm g := by
   have hok : ∀ e ∈ gs.flatten, ElemOK m e := by
-    intro e he
-    obtain ⟨grp, hgrp, heg⟩ := List.mem_flatten.mp he
-    exact compress_elems_ok m hm g hd grp (hgs.subset hgrp) e heg
+    intro e' he'
+    obtain ⟨grp, hgrp, heg⟩ := List.mem_flatten.mp he'
+    have hgrp' : grp ∈ rechunk mr (compressGroupsFixed (some m) g) := by
+      have := hgs.subset hgrp
+      simpa [compressV] using this
+    obtain ⟨g0, hg0, e, he, hsp⟩ := mem_rechunk hgrp' heg
+    obtain ⟨hfull, hcnt⟩ := compress_elems_full m hm g hd g0 hg0 e he
+    obtain ⟨hfull', hlen⟩ := full_piece m mr e e' hfull hsp
+    apply full_to_ok m e' hfull'
+    rcases hsize with hs | ⟨k, hk, hpos, hle⟩
+    · omega
+    · have := (splitElem_mem hsp hfull.runs_ne).2.2.2.2 k hk hpos
+      omega
   have hitem : ∀ p ∈ itemsOf gs.flatten, ∃ e ∈ gs.flatten, p.1 = e.toWord := by
     intro p hp
     have : p.1 ∈ (itemsOf gs.flatten).map (·.1) := List.mem_map.mpr ⟨p, hp, rfl⟩
@@ -313,6 +382,11 @@ theorem create_header (cfg : Cfg) (m : Nat) (hm : 0 < m) (hm16 : m ≤ Spec.RANG
       expand_toWord e (hok e he).runs_ne fun hb r hr =>
         ⟨((hok e he).runs_ok hb r hr).dig, ((hok e he).runs_ok hb r hr).ne⟩
   rw [hexp]
-  exact compress_fixed_denotes (some m) g hd.nodup gs hgs
+  have hperm : (hostsOf gs).Perm (hostsOf (compressV (some m) mr true g)) := by
+    unfold hostsOf
+    exact (hgs.flatten).flatMap_right _
+  refine hperm.trans ?_
+  simp only [compressV, if_true, hostsOf_rechunk]
+  exact compress_fixed_denotes (some m) g hd.nodup _ (List.Perm.refl _)
 
 end PdshVerif.Dshbak
